@@ -57,7 +57,13 @@ TOKENS = [
 NUM = re.compile(r"\b(0x[0-9a-fA-F_]+|0b[01_]+|\d[\d_]*)(?:_?(?:u8|i8|u16|i16|u32|i32|u64|i64|u128|i128|usize|isize))?\b")
 # macro invocations / definitions by name (forwarders of the operand forms, impl generators): code 200 + crc32(name) % 700
 MACRO = re.compile(r"\b(?:forward_\w+|impl_\w+|macro_rules)\s*!")
-MASTER = re.compile("(?P<mac>" + MACRO.pattern + ")|" + "|".join(f"(?P<t{c}>{p})" for c, p in TOKENS) + "|(?P<num>" + NUM.pattern + ")")
+# every other name that is *called* or selected — function / method / macro names (identifier before `(`), path segments after
+# `::`, and macro metavariables `$name` — by hash: 10000 + crc32(name) % 50000 (calls, path segments), 60000 + crc32 % 5000 (metavariables).
+# Local variable names are deliberately not part of the skeleton (renaming one changes nothing).
+CALL = r"\b[A-Za-z_][A-Za-z0-9_]*(?=\s*\()|(?<=::)[A-Za-z_][A-Za-z0-9_]*"
+META = r"\$[A-Za-z_][A-Za-z0-9_]*"
+MASTER = re.compile("(?P<mac>" + MACRO.pattern + ")|" + "|".join(f"(?P<t{c}>{p})" for c, p in TOKENS) +
+                    "|(?P<meta>" + META + ")|(?P<call>" + CALL + ")|(?P<num>" + NUM.pattern + ")")
 
 
 def strip_tests_and_comments(src):
@@ -100,6 +106,12 @@ def skeleton(src):
             import zlib
             name = re.sub(r"\s*!$", "", m.group("mac"))
             codes.append(200 + zlib.crc32(name.encode()) % 700)
+        elif m.group("meta"):
+            import zlib
+            codes.append(60000 + zlib.crc32(m.group("meta").encode()) % 5000)
+        elif m.group("call"):
+            import zlib
+            codes.append(10000 + zlib.crc32(m.group("call").encode()) % 50000)
         elif m.lastgroup == "num" or m.group("num"):
             s = m.group("num")
             s2 = re.sub(r"_?(u8|i8|u16|i16|u32|i32|u64|i64|u128|i128|usize|isize)$", "", s).replace("_", "")
